@@ -114,6 +114,18 @@ def partition(ctx, cr):
         ext = [p for p, t in calls if p.endswith("::extend")]
         ctx.ob(rule, rule + ":combine:status-and", uses_and, "combine must fold the status with Status::and (C02 decides its table)", fn=cf)
         ctx.ob(rule, rule + ":combine:unions", len(ext) >= 4, "combine must extend not_compliant, compliant, not_applicable (and metadata): %s" % ext, fn=cf)
+        # ... and nothing else: the combined record is the union of the per-rules-file partitions, so no entry is removed or rewritten
+        from rules.c04 import receiver_field
+        other = []
+        for p, t in calls:
+            if not t["args"]:
+                continue
+            fld = receiver_field(cr, cf, t["args"][0])
+            meth = p.split("::")[-1]
+            if fld in ("not_compliant", "compliant", "not_applicable") and meth not in ("extend",) and mutably(cf, t["args"][0]):
+                other.append("%s.%s (l.%s)" % (fld, meth, t.get("ln")))
+        ctx.ob(rule, rule + ":combine:only-unions", not other, ("combine also applies %s: a rule reported by one rules file disappears from / moves between the buckets of the combined record" % other) if other
+               else "the three buckets are only extended", fn=cf)
     # the accumulator the structured reporter starts from must carry the identity of Status::and
     rk = "<commands::reporters::validate::structured::CommonStructuredReporter as commands::reporters::validate::structured::StructuredReporter>::report"
     rf = cr.fns.get(rk)
@@ -379,6 +391,11 @@ def _syms(v, acc=None, depth=0):
         if isinstance(x, tuple):
             _syms(x, acc, depth + 1)
     return acc
+
+
+def mutably(f, operand):
+    from rules.c17 import mut_borrowed
+    return mut_borrowed(f, operand)
 
 
 def run(ctx):
